@@ -65,6 +65,7 @@ def eval_comprehension(I: Interp, node, fr: Frame, kind):
     iv = z3.Int(f"c!{tag}")
     rng = z3.And(iv >= 0, iv < n)
     # evaluate filter and element under the binder (pure)
+    fam = None
     st.binder_asms.append([])
     st.spec_depth += 1
     try:
@@ -77,7 +78,16 @@ def eval_comprehension(I: Interp, node, fr: Frame, kind):
         try:
             if kind == "dict":
                 key = I.to_sv(I.ev(node.key, cf))
-                val = I.to_sv(I.ev(node.value, cf))
+                val = I.ev(node.value, cf)
+                if type(val).__name__ == "PSpace":
+                    # {k(i): <space depending on i> for i in ...}: a uniform family of sub-spaces (python-side)
+                    from .interp import PSpace
+                    if not z3.is_true(cond):
+                        raise Refuse("filtered comprehension of spaces")
+                    fam = PSpace("family", n=n, items={"iv": iv, "key": key.t, "sub": val})
+                else:
+                    val = I.to_sv(val)
+                    fam = None
             else:
                 elt = I.to_sv(I.ev(node.elt, cf))
         finally:
@@ -87,6 +97,8 @@ def eval_comprehension(I: Interp, node, fr: Frame, kind):
         asms = st.binder_asms.pop()
     for a in asms:
         st.assume(z3.ForAll([iv], z3.Implies(rng, a)))
+    if kind == "dict" and fam is not None:
+        return fam
     if kind == "list":
         r = st.new_ref(LIST_CID)
         res = SV(smt.mk_ref(r), T.LIST(elt.ty))
@@ -262,6 +274,15 @@ def build_collection(I: Interp, n, args, kwargs, fr: Frame, node=None):
                 for a in ("dhas", "dget", "dsz", "dkeys"):
                     st.heap[a] = z3.Store(st.arr(a), r, z3.Select(st.arr(a), sr))
                 d = SV(smt.mk_ref(r), T.strip_opt(src.ty))
+            elif isinstance(src, PIter) and src.kind == "items" and isinstance(src.a[0], SV):
+                # dict(m.items()): a copy of m
+                m = src.a[0]
+                r = st.new_ref(DICT_CID)
+                sr = smt.rid(m.t)
+                for a in ("dhas", "dget", "dsz", "dkeys"):
+                    st.heap[a] = z3.Store(st.arr(a), r, z3.Select(st.arr(a), sr))
+                mty = T.strip_opt(m.ty)
+                d = SV(smt.mk_ref(r), mty if mty.k == "dict" else T.DICT())
             else:
                 raise Refuse("dict(iterable)")
         for k, v in kwargs.items():
